@@ -402,14 +402,19 @@ def run_sched(c, P):
                     b = c.int('%s_t%d' % (name, i), 7)
                     pay = [b]
                     if c.concrete is not None and P.get('compress'):
-                        # replay: content chosen so that real DEFLATE uses its history (a different letter per thread)
+                        # replay: content chosen so that real DEFLATE uses its history (a different letter per thread; with
+                        # client_no_context_takeover the SAME text in every thread, so that a context that was not reset shows)
                         pay = [0x40 + int(name[1:])] * 4
+                        if P['compress'].get('client_no_takeover'):
+                            pay = list(b'lomond-lomond-lomond-lomond')
                     ws.send_text(mk_str(pay) if c.concrete is None else bytes(pay).decode('ascii'))
                     sent[name].append((1, pay))
                 elif op == 'send_binary':
                     pay = [c.byte('%s_b%d' % (name, i))]
                     if c.concrete is not None and P.get('compress'):
                         pay = [0x40 + int(name[1:])] * 4
+                        if P['compress'].get('client_no_takeover'):
+                            pay = list(b'lomond-lomond-lomond-lomond')
                     ws.send_binary(mk_bytes(pay))
                     sent[name].append((2, pay))
                 elif op == 'send_big':
